@@ -9,10 +9,17 @@
     the regenerated `clampS16` that it lies strictly inside the mate band for an ARBITRARY raw
     evaluation.  (Before that commit `EvalRange` was a genuine restriction on roots: the raw
     `eval.Eval` is -10434 on `3k4/8/8/8/8/3K4/QQQQQQQQ/Q7 b`, finding D9.);
-  * `TTok` is a predicate on the persistent state ("every probe answers a value within ±Inf"),
-    true of a cleared table, preserved by stores of in-range values, by `FailHigh` and by `gen++`.
-    (For `transp.Table`, which keeps mate scores relative to the node, `tt_store` holds for values
-    `v` with `|v| ≤ Inf - ply`; this idealisation is discussed in the report.);
+  * `TTok` is a predicate on the persistent state (for the real table: every raw value within ±Inf,
+    plus the invariant `PsInv.ok` of the component laws — `tt_ok`).  The table keeps mate scores
+    RELATIVE TO THE NODE (`Insert` adds the ply to a mate score, `Value(ply)` subtracts it), so the
+    table laws are ply-relative: `RelP ply v` — a mate score claims a mate no earlier than this ply
+    (`|v| ≤ max (Inf-MaxPlies) (Inf-ply)`) — is what a probe at `ply` answers (`tt_probe`) and what a
+    store at `ply` may be handed (`tt_store`; `Inf` stored at ply 5 would read back `Inf+5` at ply 0).
+    Every value an un-aborted node at `ply` returns or stores is `RelP ply` (`QRange`, `ABRange`) —
+    PROVIDED the null move is not tried below the mate band (`nmp_floor`): `return beta` with
+    `beta < -(Inf-ply)` is the one place where a node hands out a score no position at its ply can
+    have.  search.go guards reverse futility that way but not the null move; see
+    Proofs/SearchRealScore.lean;
   * `rfp_sound`, `nmp_sound`: reverse futility / null move are only tried with `staticEval ≥ beta`
     (for `rfpCut` this needs `beta + d*RFPScoreFactor` not to wrap: `beta ≤ rfpSafe`, the bound for
     `RFPDepthLimit ≤ 10`, `RFPScoreFactor ≤ 130` of params/spsa.go);
@@ -58,11 +65,34 @@ theorem evaluate_range (c : Comp σ π) (b : Board) :
     min ((10000:Int) - 64 - 1) (max x (-(10000:Int) + 64 + 1)) < (10000:Int) - 64
   omega
 
+/-- the largest score a node at `ply` can hold on its own account: a mate score `Inf - ply'` with
+    `ply' ≥ ply`, or any score outside the mate band (`|v| ≤ Inf - MaxPlies`, not re-based by the table). -/
+def hiP (ply : Int) : Int := max 9936 (10000 - ply)
+
+/-- a score is ply-consistent: a mate score claims a mate no earlier than this node. -/
+def RelP (ply v : Int) : Prop := -hiP ply ≤ v ∧ v ≤ hiP ply
+
+theorem RelP.inR {ply v : Int} (h0 : 0 ≤ ply) (h : RelP ply v) : InR v := by
+  unfold RelP hiP at h; unfold InR; omega
+
+theorem RelP.mono {p q v : Int} (hpq : p ≤ q) (h : RelP q v) : RelP p v := by
+  unfold RelP hiP at *; omega
+
+theorem relP_zero (ply : Int) : RelP ply 0 := by unfold RelP hiP; omega
+
 structure ScoreLaws (c : Comp σ π) (Good : Board → Prop) (TTok : σ → Prop) (μ : Board → Nat) : Prop where
   /-- the table predicate includes the invariant of the persistent state the component laws need -/
   tt_ok : ∀ ps, TTok ps → PsInv.ok ps
-  tt_probe : ∀ ps b ply e, TTok ps → c.ttProbe ps b ply = some e → InR e.value
-  tt_store : ∀ ps b d ply m v bd, TTok ps → InR v → TTok (c.ttStore ps b d ply m v bd)
+  /-- a hit read at `ply` is ply-consistent (the table keeps mate scores relative to the node:
+      `Value(ply)` re-bases what `Insert(…, ply, …)` stored) -/
+  tt_probe : ∀ ps b ply e, TTok ps → 0 ≤ ply → ply ≤ 127 → c.ttProbe ps b ply = some e → RelP ply e.value
+  /-- storing a ply-consistent value keeps the table predicate (NOT any value within `±Inf`: the real
+      table adds `ply` to a mate score, so `Inf` stored at ply 5 would read back `Inf + 5` at ply 0) -/
+  tt_store : ∀ ps b d ply m v bd, TTok ps → 0 ≤ ply → ply ≤ 127 → RelP ply v →
+    PsInv.ok (c.ttStore ps b d ply m v bd) → TTok (c.ttStore ps b d ply m v bd)
+  /-- null-move pruning is not tried below the mate band (`return beta` would hand a value to the
+      parent that no position at this ply can have) -/
+  nmp_floor : ∀ b d se beta, c.nmpTry b d se beta = true → -9936 ≤ beta
   tt_failHigh : ∀ ps d b p hs, TTok ps → TTok (c.failHigh ps d b p hs)
   tt_nextGen : ∀ ps, TTok ps → TTok (c.nextGen ps)
   rfp_sound : ∀ d se beta, 0 ≤ d → beta ≤ rfpSafe → c.rfpCut d se beta = true → beta ≤ se
@@ -98,6 +128,32 @@ omit [PsInv σ] in
 theorem inR_eval (c : Comp σ π) (b : Board) : InR (evaluate c b) := by
   have h := evaluate_range c b
   exact ⟨Int.le_of_lt (Int.lt_trans (by decide) h.1), Int.le_of_lt (Int.lt_trans h.2 (by decide))⟩
+
+theorem neg_relP {p v : Int} (hp : 0 ≤ p) (h : RelP (p + 1) v) : RelP p (neg v) := by
+  have hi := h.inR (by omega)
+  unfold InR at hi
+  rw [neg_eq (by omega) (by omega)]
+  unfold RelP hiP at *; omega
+
+theorem relP_mate {ply : Int} (h0 : 0 ≤ ply) (h1 : ply ≤ 127) : RelP ply (wrapS16 (-Inf + ply)) := by
+  rw [Inf_eq, wrapS16_id (by omega) (by omega)]
+  unfold RelP hiP; omega
+
+omit [PsInv σ] in
+theorem relP_eval (c : Comp σ π) (b : Board) (ply : Int) : RelP ply (evaluate c b) := by
+  obtain ⟨h1, h2⟩ := evaluate_range c b
+  generalize evaluate c b = x at h1 h2
+  simp only [Score] at x h1 h2
+  unfold RelP hiP; omega
+
+omit [PsInv σ] in
+/-- the clamped evaluation lies strictly inside the mate band. -/
+theorem eval_band (c : Comp σ π) (b : Board) : (-9935 : Int) ≤ evaluate c b ∧ evaluate c b ≤ (9935 : Int) := by
+  obtain ⟨h1, h2⟩ := evaluate_range c b
+  exact ⟨Int.add_one_le_of_lt h1, Int.le_of_lt_add_one h2⟩
+
+theorem relP_max {p a b : Int} (ha : RelP p a) (hb : RelP p b) : RelP p (max a b) := by
+  unfold RelP at *; omega
 
 /-- the full child window `(-beta, -alpha)`. -/
 theorem winOK_full {a b : Int} (ha1 : -32767 ≤ a) (ha2 : a ≤ 10000) (hb1 : -10000 ≤ b) (hb2 : b ≤ 32767) :
